@@ -1,11 +1,9 @@
 package main
 
 import (
-	"bytes"
 	"encoding/json"
 	"fmt"
 	"go/ast"
-	"go/format"
 	"go/parser"
 	"go/token"
 	"reflect"
@@ -341,15 +339,40 @@ func c14Check(in c14Input) (key, what string) {
 		if afile, ok := ares.(*ast.File); ok && afile.Name != nil && dfile.Name != nil && afile.Name.Name != dfile.Name.Name {
 			return "c14-result", fmt.Sprintf("dstutil.Apply returned file %q, astutil.Apply file %q", dfile.Name.Name, afile.Name.Name)
 		}
-		dout, derr, dpm := printDst(dfile)
-		var buf bytes.Buffer
-		aerr := format.Node(&buf, fset, ares)
-		if dpm == "" && derr == nil && aerr == nil {
-			dt, _, _ := scanAll(dout)
-			at, _, _ := scanAll(buf.String())
-			if tokString(dt) != tokString(at) {
-				return "c14-tree", "the trees differ after the same edits:\n" + clip(dout, 400) + "\n---- astutil:\n" + clip(buf.String(), 400)
+		// the same tree: node kinds (with identifier names and literal values) in preorder.  (The
+		// printed texts are not compared: a script can leave an ill-formed tree -- a ValueSpec
+		// without values, a case without expressions -- which go/printer renders differently from
+		// a nil and from an empty slice, and the restorer turns empty slices into nil.)
+		var dk, ak []string
+		dst.Inspect(dfile, func(n dst.Node) bool {
+			if n != nil {
+				k := kindOf(n)
+				switch x := n.(type) {
+				case *dst.Ident:
+					k += ":" + x.Name
+				case *dst.BasicLit:
+					k += ":" + x.Value
+				}
+				dk = append(dk, k)
 			}
+			return true
+		})
+		ast.Inspect(ares, func(n ast.Node) bool {
+			switch x := n.(type) {
+			case nil:
+			case *ast.Comment, *ast.CommentGroup:
+				return false
+			case *ast.Ident:
+				ak = append(ak, "Ident:"+x.Name)
+			case *ast.BasicLit:
+				ak = append(ak, "BasicLit:"+x.Value)
+			default:
+				ak = append(ak, kindOf(n))
+			}
+			return true
+		})
+		if strings.Join(dk, " ") != strings.Join(ak, " ") {
+			return "c14-tree", "the trees differ after the same edits: " + firstListDiff(dk, ak)
 		}
 	}
 	// visit-once (list elements only; the whole-tree abort and pre=false cases skip subtrees)
